@@ -27,6 +27,14 @@ def near_misses(t, rng):
     return sorted(out)
 
 
+def conv_kinds(conv):
+    """['str'] for a plain text converter, [] / other tags otherwise (by behaviour of the class names, not by identity)"""
+    n = type(conv).__name__
+    if n == "StrConverter":
+        return ["str"]
+    return [n]
+
+
 def rand_text(rng):
     r = rng.random()
     if r < 0.25:
@@ -35,6 +43,10 @@ def rand_text(rng):
         return rng.choice(["", "0", "-0", "12", "-12", "+5", "1.5", "-30.5", "87.60", "12.", ".5", "-.5", "1e3", "inf", "-inf", "nan", "NaN",
                            "Infinity", " 12 ", "1_000", "0x10", "Auto", "Auto Down", "Auto Up", "No Preset", "Off", "On", "< UNKNOWN >",
                            "--1", "1-", "1.2.3", "１２", "1,5", "٣", "+", "-", ".", "1 2"])
+    if r < 0.6:
+        # text in which Unicode normalisation, case folding or width folding would change something: "any Unicode text" is passed through as it is
+        return rng.choice(["Cafe\u0301", "e\u0301", "\u212b", "\u2126", "\u1112\u1161\u11ab", "ﬁ", "Ａ", "ǆ", "İ", "ß", "ſ", "a\u0308\u0323", "\u00a0x\u00a0", "x\u200b", "\ufeffx",
+                           "Straße", "ÅNGSTRÖM", "ｱ", "㍿", "½", "²", "x\u0000y"[:1] + "y"])
     if r < 0.75:
         return str(rng.randint(-10**6, 10**6)) if rng.random() < 0.5 else f"{rng.uniform(-1e4, 1e4):.{rng.randint(0, 4)}f}"
     return "".join(chr(rng.choice([rng.randint(32, 126), rng.randint(160, 0x2FF), rng.randint(0x4E00, 0x4E80)])) for _ in range(rng.randint(1, 8)))
@@ -127,9 +139,28 @@ def run(ctx: core.Ctx):
                 from ..realobj import StubConnection
                 from ynca.connection import YncaProtocolStatus as _St
                 sample = [("empty", "")] + [x for x in texts if x[0] == "member"][:3] + [x for x in texts if x[0] == "recorded"][:2] + [x for x in texts if x[0] == "random"][:2]
+                if conv_kinds(conv) == ["str"]:
+                    sample += [("unicode", "Füße 𝄞 Cafe\u0301"), ("unicode", "\u212b\u2126 ｱ")]
                 for tag, t in sample:
                     conn_ = StubConnection()
                     obj_ = cls(conn_)
+                    if tag == "unicode" and "\r\n" not in t:
+                        # the whole receive path: the line arrives byte by byte (every read boundary inside a multi-byte character included) through
+                        # a real YncaProtocol that hands its messages to the object
+                        from ynca.connection import YncaProtocol
+                        pr_ = YncaProtocol(conn_.deliver, None, 0)
+                        try:
+                            for b_ in (f"@{c['id']}:{f['name']}={t}\r\n").encode("utf-8"):
+                                pr_.data_received(bytes([b_]))
+                            got_ = getattr(obj_, f["attr"])
+                        except Exception as e:  # noqa: BLE001
+                            got_ = f"<raised {type(e).__name__}>"
+                        ctx.case(("attr-bytes", c["py"], f["name"], t))
+                        ctx.count("attribute_reads_bytewise")
+                        if got_ != t:
+                            ctx.violation(f"{c['py']}.{f['attr']} reads {got_!r} after the device sent {f['name']}={t!r} one byte per read; text functions pass values through unchanged",
+                                          {"path": "attribute-bytes", "class": c["py"], "function": f["name"], "text": t}, {"kind": "attribute-bytes"})
+                        continue
                     try:
                         want = ("OK", conv.to_value(t))
                     except Exception:  # noqa: BLE001
@@ -144,7 +175,8 @@ def run(ctx: core.Ctx):
                     ctx.case(("attr", c["py"], f["name"], t))
                     ctx.count("attribute_reads")
                     exp = want[1] if want[0] == "OK" else None
-                    if got != exp or type(got) is not type(exp):
+                    both_nan = isinstance(got, float) and isinstance(exp, float) and got != got and exp != exp
+                    if (got != exp or type(got) is not type(exp)) and not both_nan:
                         ctx.violation(f"{c['py']}.{f['attr']} reads {got!r} after the device reported {f['name']}={t!r}; the decoding of that text is {exp!r}",
                                       {"path": "attribute", "class": c["py"], "function": f["name"], "text": t}, {"kind": "attribute-not-decoding", "tag": tag})
             for E in conv_enums(conv, []):
